@@ -2097,12 +2097,15 @@ class _TrampolineArgs:
     def args(self) -> tuple:
         """Return the arguments for a trampolined function. If the function
         that is being trampolined has varargs, unroll the final argument if
-        it is a sequence."""
+        it is a sequence. A final `nil` is the empty sequence of rest arguments
+        (as in `(recur x (next xs))`), not a single `nil` rest argument."""
         if not self._has_varargs:
             return self._args
 
         try:
             final = self._args[-1]
+            if final is None:
+                return self._args[:-1]
             if isinstance(final, ISeq):
                 inits = self._args[:-1]
                 return tuple(itertools.chain(inits, final))
